@@ -557,6 +557,78 @@ fn fil(n: i64) -> TokenAmount { TokenAmount::from_whole(n) }
 
 const LONG_FAULT_SEQ: u64 = 1_000_000;
 const REWARD_MATURITY_SEQ: u64 = 1_000_001;
+const REPLICA_UPDATE_SEQ: u64 = 1_000_002;
+
+/// Scripted history: two committed-capacity sectors in two different deadlines (NI prove-commit lets
+/// the deadline be chosen), both proven, then upgraded **in one message** with verified deals (the
+/// pledge of each rises with its quality-adjusted power).  The ledgers and the network total must
+/// stay exact across the multi-deadline update.
+fn replica_update_script(c: &mut Chain, cx: &mut Ctx) {
+    let mi = 0usize;
+    let (owner, mid, client) = (c.miners[mi].owner, c.miners[mi].id, c.accounts[3].0);
+    if !c.grant_datacap(2, 3, 64u64 << 30) {
+        cx.rep.notes.push("replica-update scenario skipped: DataCap could not be granted through the repo's helpers".into());
+        return;
+    }
+    c.w.take_trace();
+    record_balances(c);
+    exec(c, cx, "market_add_balance for=miner0 value=50".to_string(), false, false, |c| c.market_add_balance(&owner, &mid, &fil(50)));
+    record_balances(c);
+    exec(c, cx, "market_add_balance for=client3 value=500".to_string(), false, false, |c| c.market_add_balance(&client, &client, &fil(500)));
+    // two CC sectors in two deadlines well ahead of the current one
+    let dl0 = c.dline_info(mi).index;
+    let (da, db) = ((dl0 + 10) % 48, (dl0 + 20) % 48);
+    let mut secs = vec![];
+    for d in [da, db] {
+        let mut nums = vec![];
+        record_balances(c);
+        let res = exec(c, cx, format!("prove_commit_ni miner={} n=1 deadline={}", mi, d), false, false, |c| { let (a, b) = c.prove_commit_ni(mi, 1, d, 60 * 2880); nums = b; a });
+        if !res.ok() { cx.rep.notes.push(format!("replica-update scenario: NI prove-commit refused ({})", res.message)); return; }
+        secs.push(nums[0]);
+    }
+    // prove each of them once
+    for _ in 0..120 {
+        if cx.stop { return; }
+        let view = c.miner_view(&c.miners[mi].id);
+        if view.parts.iter().all(|p| p.5.is_empty()) && view.n_live >= 2 { break; }
+        let dl = c.dline_info(mi);
+        let parts: Vec<_> = view.parts.iter().filter(|p| p.0 == dl.index && !p.5.is_empty()).cloned().collect();
+        if !parts.is_empty() && dl.is_open() {
+            let plist: Vec<(u64, Vec<u64>)> = parts.iter().map(|p| (p.1, vec![])).collect();
+            record_balances(c);
+            exec(c, cx, format!("post miner={} deadline={} parts={:?} invalid=false", mi, dl.index, plist), false, false, |c| c.submit_post(mi, dl.index, dl.challenge, plist.clone(), false));
+        }
+        let t = dl.close.max(c.epoch() + 1);
+        advance(c, cx, t, false);
+    }
+    // two verified deals, then one ProveReplicaUpdates3 covering both deadlines (earlier deadline first)
+    let start = c.epoch() + 600;
+    let end = start + 200 * 2880;
+    let mut ids = vec![];
+    for k in 0..2u64 {
+        let mut id = None;
+        record_balances(c);
+        let res = exec(c, cx, format!("publish_deal miner={} client=3 start={} end={} verified=true", mi, start, end), false, false, |c| { let (a, b) = c.publish_deal_v(mi, 3, 998_000 + k, start, end, true); id = b; a });
+        if let (true, Some(d)) = (res.ok(), id) { ids.push(d); }
+    }
+    if ids.len() < 2 { cx.rep.notes.push("replica-update scenario: verified deals were not published".into()); return; }
+    let view = c.miner_view(&c.miners[mi].id);
+    let mut ups: Vec<(u64, u64, u64, Vec<u64>)> = vec![];
+    for (k, sn) in secs.iter().enumerate() {
+        if let Some(p) = view.parts.iter().find(|p| p.2.contains(sn)) { ups.push((*sn, p.0, p.1, vec![ids[k]])); }
+    }
+    ups.sort_by_key(|u| u.1);
+    // the update must not target the current or the next deadline
+    let dl = c.dline_info(mi);
+    if ups.iter().any(|u| u.1 == dl.index || u.1 == (dl.index + 1) % 48) {
+        let t = c.epoch() + 3 * 60;
+        advance(c, cx, t, false);
+    }
+    record_balances(c);
+    let res = exec(c, cx, format!("replica_update miner={} updates={:?}", mi, ups), false, false, |c| c.replica_update(mi, ups.clone()));
+    let v2 = c.miner_view(&c.miners[mi].id);
+    cx.rep.notes.push(format!("replica-update scenario: update of {} sectors in deadlines {:?} -> {} ; ip {} Σ {}", ups.len(), ups.iter().map(|u| u.1).collect::<Vec<_>>(), if res.ok() { "ok".to_string() } else { res.message.clone() }, v2.ip.atto(), v2.sector_pledge_sum.atto()));
+}
 fn cx_seq_tag() -> u64 { 1 }
 
 /// Operations beyond the basic sector life cycle: storage deals (publish, pre-commit with data,
@@ -741,10 +813,10 @@ pub fn run(cfg: &RunCfg, which: Which) -> Report {
     let mut seqs: Vec<u64> = match cfg.only_seq { Some(k) => vec![k], None => (0..nseq).collect() };
     // scripted scenario (C05/C03): sectors left faulty for the whole fault_max_age (42 proving periods)
     if cfg.only_seq.is_none() && which != Which::C01 { seqs.push(LONG_FAULT_SEQ); }
-    if cfg.only_seq.is_none() && which == Which::C03 { seqs.push(REWARD_MATURITY_SEQ); }
+    if cfg.only_seq.is_none() && which == Which::C03 { seqs.push(REWARD_MATURITY_SEQ); seqs.push(REPLICA_UPDATE_SEQ); }
     for seq in seqs {
         let mut r = seq_rng(cfg.seed, seq);
-        let scripted = seq == LONG_FAULT_SEQ || seq == REWARD_MATURITY_SEQ;
+        let scripted = seq == LONG_FAULT_SEQ || seq == REWARD_MATURITY_SEQ || seq == REPLICA_UPDATE_SEQ;
         let mut c = Chain::new(6);
         c.set_epoch(r.range(1, 40));
         let dense = r.chance(1, 4) && !scripted;
@@ -787,7 +859,7 @@ pub fn run(cfg: &RunCfg, which: Which) -> Report {
                     }
                 }
                 let cap = if scripted { fil(5000) } else if r.chance(1, 6) { fil(50) } else { fil(r.range(1, 4) * 2500) };
-                let immediate = (r.chance(1, 2) || scripted) && seq != REWARD_MATURITY_SEQ;
+                let immediate = (r.chance(1, 2) || scripted) && seq != REWARD_MATURITY_SEQ && seq != REPLICA_UPDATE_SEQ;
                 record_balances(&c);
                 exec(&mut c, &mut cx, format!("fund miner={} value={}", mi, cap.atto()), false, false, |c| c.send_funds(mi, &cap));
                 if immediate {
@@ -818,6 +890,10 @@ pub fn run(cfg: &RunCfg, which: Which) -> Report {
         }
         if seq == LONG_FAULT_SEQ {
             long_fault_script(&mut c, &mut cx, &mut pending);
+            proven_any = true;
+        }
+        if seq == REPLICA_UPDATE_SEQ {
+            replica_update_script(&mut c, &mut cx);
             proven_any = true;
         }
         if seq == REWARD_MATURITY_SEQ {
